@@ -27,11 +27,11 @@ pub fn derive(input: &Input) -> TokenStream {
 
     let fields_names_hygienic_1 = input.fields.iter()
         .enumerate()
-        .map(|(i, _)| Ident::new(&format!("___soa_derive_private_1_{}", i), Span::call_site()))
+        .map(|(i, _)| Ident::new(&format!("___soa_derive_private_1_{}", i), Span::mixed_site()))
         .collect::<Vec<_>>();
     let fields_names_hygienic_2 = input.fields.iter()
         .enumerate()
-        .map(|(i, _)| Ident::new(&format!("___soa_derive_private_2_{}", i), Span::call_site()))
+        .map(|(i, _)| Ident::new(&format!("___soa_derive_private_2_{}", i), Span::mixed_site()))
         .collect::<Vec<_>>();
 
     let slice_fields_types = input.map_fields_nested_or(
@@ -293,11 +293,11 @@ pub fn derive_mut(input: &Input) -> TokenStream {
     let first_field = &fields_names[0];
     let fields_names_hygienic_1 = &input.fields.iter()
         .enumerate()
-        .map(|(i, _)| Ident::new(&format!("___soa_derive_private_slice_1_{}", i), Span::call_site()))
+        .map(|(i, _)| Ident::new(&format!("___soa_derive_private_slice_1_{}", i), Span::mixed_site()))
         .collect::<Vec<_>>();
     let fields_names_hygienic_2 = &input.fields.iter()
         .enumerate()
-        .map(|(i, _)| Ident::new(&format!("___soa_derive_private_slice_2_{}", i), Span::call_site()))
+        .map(|(i, _)| Ident::new(&format!("___soa_derive_private_slice_2_{}", i), Span::mixed_site()))
         .collect::<Vec<_>>();
 
     let slice_mut_fields_types = input.map_fields_nested_or(
